@@ -148,8 +148,17 @@ func runTrkOp(k int, p *Sx, f *field.Field, o *Sx) string {
 	case "reset":
 		*f = trackField(k, p)
 		return "ok"
+	case "sfilter":
+		// the filter on a String field of the same spec that carries the text (as fields 35 / 36 / 45 of the shipped specs do)
+		return xh([]byte(stringTrackFilter(k, p, o.List[1].Hex())))
 	}
 	return "bad"
+}
+
+func stringTrackFilter(k int, p *Sx, v []byte) string {
+	sf := field.NewString(buildField(p).Spec())
+	sf.SetBytes(v)
+	return trackFilter(k)(string(v), sf)
 }
 
 func runTrk(a []*Sx) []string {
@@ -305,6 +314,9 @@ func init() {
 				if o.Head() == "setbytes" && !asciiOnly(o.List[1].Hex()) {
 					return
 				}
+				if o.Head() == "sfilter" && !asciiOnly(o.List[1].Hex()) {
+					return
+				}
 			}
 			emit0(c)
 		}
@@ -382,8 +394,21 @@ func init() {
 						cb.dd = cb.dd[:len(cb.dd)+d]
 					}
 					emit(L(A("trk"), I(k), p, L(cb.op(), op("pack"), op("str"))))
+					// the same text in a String field: beyond the maximum the field cannot be packed and the filter has no
+					// parsed track to work with
+					fb2 := trackField(k, p)
+					setComps(fb2, cb)
+					if sb2, err := fb2.String(); err == nil && cb.pan != "" {
+						emit(L(A("trk"), I(k), p, L(op("sfilter", X([]byte(sb2)), X([]byte(cb.pan))))))
+					}
 				}
 				s, _ := f.String()
+				// String fields carrying track data: the rendering of a track, a mutated one, and a bare PAN
+				if c.pan != "" {
+					emit(L(A("trk"), I(k), p, L(op("sfilter", X([]byte(s)), X([]byte(c.pan))))))
+					emit(L(A("trk"), I(k), p, L(op("sfilter", X(mutate(r, []byte(s))), X([]byte(c.pan))))))
+					emit(L(A("trk"), I(k), p, L(op("sfilter", X([]byte(c.pan)), X([]byte(c.pan))))))
+				}
 				emit(L(A("trk"), I(k), p, L(op("setbytes", X([]byte(s))), op("get"), op("str"))))
 				emit(L(A("trk"), I(k), p, L(c2.op(), op("setbytes", X(mutate(r, []byte(s)))), op("get"), op("str"))))
 				// an expiry date with an impossible month: the parse stops half way
@@ -520,6 +545,17 @@ func init() {
 	// C18: the Describe filter never shows the full PAN of a well-formed track
 	regCheck("C18", "trk", func(a []*Sx) (bool, []Finding) {
 		k := a[0].Int()
+		if o := a[2].List[0]; o.Head() == "sfilter" {
+			v, pan := o.List[1].Hex(), string(o.List[2].Hex())
+			if len(pan) < 12 || !asciiOnly(v) || !strings.Contains(string(v), pan) {
+				return false, nil
+			}
+			out := stringTrackFilter(k, a[1], v)
+			if strings.Contains(out, pan) {
+				return true, []Finding{{"c18-string-track-pan", fmt.Sprintf("the track %d filter on a String field printed the full PAN: %q", k, clip(out))}}
+			}
+			return true, nil
+		}
 		c := firstComps(a[2].List)
 		if c == nil || !trackInDomain(k, *c) || len(c.pan) < 12 {
 			return false, nil
